@@ -17,7 +17,55 @@ import (
 
 // UFCase is a sequence of well-formed encoded fields (no top-level STOP, canonical booleans).
 type UFCase struct {
-	Data evid.Hex `json:"data"`
+	Data   evid.Hex `json:"data"`
+	WarmUp int      `json:"warm_up,omitempty"` // number of top-level fields of a conversion made just before (history)
+}
+
+// warmUpInput builds n small top-level fields.
+func warmUpInput(n int) []byte {
+	var b []byte
+	for i := 0; i < n; i++ {
+		b = append(b, ref.I32, byte(i>>8), byte(i))
+		b = ref.Put32(b, uint32(i))
+	}
+	return b
+}
+
+// editNestedString finds a string at depth >= 2 in the harness-built tree / reference fields, appends one
+// byte to it IN PLACE (same slices) in both, and reports whether it found one.
+func editNestedString(tree []uf.UnknownField, fields []ref.Field) bool {
+	var walk func(f *uf.UnknownField, v *ref.Value, depth int) bool
+	walk = func(f *uf.UnknownField, v *ref.Value, depth int) bool {
+		switch v.T {
+		case ref.STRING:
+			if depth >= 2 {
+				v.Str = append(append([]byte(nil), v.Str...), 'Z')
+				f.Value = string(v.Str)
+				return true
+			}
+		case ref.LIST, ref.SET, ref.MAP:
+			xs := f.Value.([]uf.UnknownField)
+			for i := range xs {
+				if walk(&xs[i], &v.Elems[i], depth+1) {
+					return true
+				}
+			}
+		case ref.STRUCT:
+			xs := f.Value.([]uf.UnknownField)
+			for i := range xs {
+				if walk(&xs[i], &v.Fields[i].V, depth+1) {
+					return true
+				}
+			}
+		}
+		return false
+	}
+	for i := range tree {
+		if walk(&tree[i], &fields[i].V, 1) {
+			return true
+		}
+	}
+	return false
 }
 
 // parseFieldSeq parses data as (type,id,value)* with the reference; ok=false if it is not in the domain.
@@ -233,6 +281,13 @@ func checkUnknownFields(c UFCase, cv *cov) (v *evid.Violation) {
 	var flags struct{ contThenScalar, contOfStruct bool }
 	body := func() {
 		// bytes -> tree
+		if c.WarmUp > 0 && c.WarmUp <= 5000 {
+			// history: an earlier conversion with many top-level fields, whose result is dropped
+			if _, err := uf.ConvertUnknownFields(warmUpInput(c.WarmUp)); err != nil {
+				v = evid.Failf("warm-up conversion of %d fields failed: %v", c.WarmUp, err)
+				return
+			}
+		}
 		input := append([]byte(nil), data...)
 		tree, err := uf.ConvertUnknownFields(input)
 		for i := range input {
@@ -252,7 +307,23 @@ func checkUnknownFields(c UFCase, cv *cov) (v *evid.Violation) {
 				return
 			}
 		}
+		// history: further conversions must not disturb the tree already handed out
+		for _, n := range []int{1, 7, c.WarmUp} {
+			if n > 0 && n <= 5000 {
+				if _, err := uf.ConvertUnknownFields(warmUpInput(n)); err != nil {
+					v = evid.Failf("follow-up conversion of %d fields failed: %v", n, err)
+					return
+				}
+			}
+		}
+		for i := range tree {
+			if v = compareUF(&tree[i], fields[i].ID, &fields[i].V, true, fmt.Sprintf("field[%d] (re-checked after later conversions)", i)); v != nil {
+				v.Msg += "; input " + hx(data)
+				return
+			}
+		}
 		// tree -> bytes
+		var built []uf.UnknownField
 		for pass, tr := range [][]uf.UnknownField{tree, nil} {
 			name := "converted tree"
 			if pass == 1 {
@@ -261,6 +332,7 @@ func checkUnknownFields(c UFCase, cv *cov) (v *evid.Violation) {
 				for i := range fields {
 					tr[i] = buildUF(fields[i].ID, &fields[i].V)
 				}
+				built = tr
 			}
 			l, err := uf.UnknownFieldsLength(tr)
 			if err != nil || l != len(data) {
@@ -288,6 +360,25 @@ func checkUnknownFields(c UFCase, cv *cov) (v *evid.Violation) {
 						return
 					}
 				}
+			}
+		}
+		// a tree edited in place (a nested string grows by one byte) and measured / written again
+		if built != nil && editNestedString(built, fields) {
+			var exp []byte
+			for i := range fields {
+				exp = append(exp, byte(fields[i].V.T))
+				exp = ref.Put16(exp, uint16(fields[i].ID))
+				exp = ref.Append(exp, &fields[i].V, nil)
+			}
+			l, err := uf.UnknownFieldsLength(built)
+			if err != nil || l != len(exp) {
+				v = evid.Failf("UnknownFieldsLength of a tree that was measured before and then edited in place (a nested string grew by one byte) = %d (err %v), the encoding has %d bytes", l, err, len(exp))
+				return
+			}
+			out := make([]byte, len(exp))
+			if w, err := uf.WriteUnknownFields(out, built); err != nil || w != len(exp) || !bytes.Equal(out, exp) {
+				v = evid.Failf("WriteUnknownFields of the edited tree: (%d,%v), want %d bytes equal to the reference", w, err, len(exp))
+				return
 			}
 		}
 	}
@@ -413,7 +504,7 @@ func genUFCase(t *rapid.T) UFCase {
 		b = ref.Put16(b, uint16(id))
 		b = ref.Append(b, &v, nil)
 	}
-	return UFCase{Data: b}
+	return UFCase{Data: b, WarmUp: rapid.SampledFrom([]int{0, 0, 0, 1, 100, 170, 171, 172, 300, 1000, 4096, 4097}).Draw(t, "warmUp")}
 }
 
 func TestC13_Random(t *testing.T) {
@@ -489,3 +580,107 @@ func TestC13_Pairs(t *testing.T) {
 
 var _ = thrift.STOP
 var _ = rapid.Bool
+
+// TestC13_ManyStrings: millions of distinct short strings converted one after the other.
+func TestC13_ManyStrings(t *testing.T) {
+	rec := evid.New("C13", "c13_many_strings", "lists of 4096 distinct 8-byte (and 5-byte) strings (counter-valued), converted one list after the other; every element compared with the input; distinct by construction")
+	defer rec.Flush()
+	total := evid.Pick(30_000_000, 100_000_000)
+	shard, _ := evid.Shard()
+	const per = 4096
+	b := evid.NewBatch()
+	counter := shard * 1_000_003
+	for done := 0; done < total; done += per {
+		sl := 8
+		if (done/per)%3 == 2 {
+			sl = 5
+		}
+		data := []byte{ref.LIST, 0, 1, ref.STRING}
+		data = ref.Put32(data, per)
+		base := counter
+		for i := 0; i < per; i++ {
+			data = ref.Put32(data, uint32(sl))
+			x := mix13(counter, sl)
+			counter++
+			for j := 0; j < sl; j++ {
+				data = append(data, byte(x))
+				x >>= 8
+			}
+		}
+		tree, err := uf.ConvertUnknownFields(data)
+		if err != nil || len(tree) != 1 {
+			failEnum(t, rec, "c13_unknown_fields", UFCase{Data: data[:64]}, evid.Failf("ConvertUnknownFields of a list of %d short strings failed: %v", per, err))
+			break
+		}
+		xs, _ := tree[0].Value.([]uf.UnknownField)
+		bad := -1
+		if len(xs) != per {
+			bad = 0
+		}
+		for i := 0; i < len(xs) && bad < 0; i++ {
+			s, _ := xs[i].Value.(string)
+			x := mix13(base+i, sl)
+			if len(s) != sl {
+				bad = i
+				break
+			}
+			for j := 0; j < sl; j++ {
+				if s[j] != byte(x) {
+					bad = i
+					break
+				}
+				x >>= 8
+			}
+		}
+		if bad >= 0 {
+			got, _ := xs[bad].Value.(string)
+			want := make([]byte, sl)
+			x := mix13(base+bad, sl)
+			for j := range want {
+				want[j] = byte(x)
+				x >>= 8
+			}
+			failEnum(t, rec, "c13_string_sequence", StrSeqCase{Strs: []evid.Hex{[]byte(got), want}}, evid.Failf("ConvertUnknownFields: element %d of a list of %d distinct %d-byte strings (string #%d of the run) came back as %x, the input holds %x", bad, per, sl, base+bad, got, want))
+			break
+		}
+		b.Evals += per
+	}
+	b.Distinct, b.Nontrivial = b.Evals, b.Evals
+	rec.Merge(b)
+	rec.Sample(map[string]interface{}{"strings": total, "per_list": per, "length": 8})
+}
+
+// mix13 maps a counter bijectively to sl bytes worth of bits that look unrelated for consecutive counters.
+func mix13(counter, sl int) uint64 {
+	if sl >= 8 {
+		return uint64(counter) * 0x9E3779B97F4A7C15
+	}
+	// 5 bytes: a bijection on 40 bits (odd multiplier modulo 2^40)
+	return (uint64(counter) * 0x9E3779B97F) & (1<<40 - 1)
+}
+
+// StrSeqCase: short strings converted one after the other (replay form of TestC13_ManyStrings).
+type StrSeqCase struct {
+	Strs []evid.Hex `json:"strs"`
+}
+
+func checkStrSeq(c StrSeqCase, cv *cov) *evid.Violation {
+	for round := 0; round < 2; round++ {
+		for i, sv := range c.Strs {
+			data := []byte{ref.STRING, 0, 1}
+			data = ref.Put32(data, uint32(len(sv)))
+			data = append(data, sv...)
+			tree, err := uf.ConvertUnknownFields(data)
+			if err != nil || len(tree) != 1 {
+				return evid.Failf("string %d of the sequence: convert failed: %v", i, err)
+			}
+			if got, _ := tree[0].Value.(string); got != string(sv) {
+				return evid.Failf("string %d of the sequence: the field carries %x, ConvertUnknownFields returned %x", i, []byte(sv), got)
+			}
+		}
+	}
+	cv.nontrivial = len(c.Strs) >= 2
+	return nil
+}
+
+func init() { register("c13_string_sequence", checkStrSeq) }
